@@ -4,6 +4,7 @@ import (
 	"encoding/json"
 	"fmt"
 	"os"
+	"strings"
 )
 
 // A family is a deterministic, indexed set of programs cut into blocks. Block b holds programs
@@ -126,7 +127,7 @@ type danglingTemplate struct {
 	// nothing a sibling call can do removes the reference (the construct appends to a list:
 	// requirements, required names, headers, params, view attributes, routes, error responses).
 	// Templates whose construct a later sibling can replace (Body, MapParams, Tag, Message,
-	// Metadata, Trailers, gRPC Headers, Result, a redefined attribute) are strict only when
+	// Metadata, Trailers, gRPC Headers, Result, a redefined attribute, the selected view) are strict only when
 	// they are alone; with companions the accepted design must still mention the name.
 	strict bool
 }
@@ -317,6 +318,7 @@ func danglingTemplates() []danglingTemplate {
 		case replaceable[fn]:
 		case fn == "Headers" && t[i].ctx == "grpc-response":
 		case fn == "Attribute" && t[i].ctx == "type": // attribute f can be redefined by a sibling
+		case fn == "View" && len(t[i].call.Args) == 1: // View(name) selects THE view: a later View(other) replaces the selection
 		default:
 			t[i].strict = true
 		}
@@ -328,25 +330,85 @@ func danglingTemplates() []danglingTemplate {
 // of the enumerated context they extend.
 var companionCtx = map[string]string{"method+auth": "method+http", "service+auth": "service", "api+auth": "api"}
 
-// familyDangling: level 1 = every template alone; level 2 = with one companion call before or
-// after it; level 3 = with two companion calls in every relative position. Companions are the
-// calls goa accepts in that context (sel.D3); none of them can define the name because no menu
-// contains that name.
-func familyDangling(sel *Selection, level int) []block {
+// danglingInstance is one template placed in one scaffold (the base context of the template or
+// a variant of it).
+type danglingInstance struct {
+	idx int // index of the template (state keys)
+	tpl danglingTemplate
+	ctx string
+	// dangling: the dangling-reference clause of the oracle applies (false when the type the
+	// template refers into has no attributes in this variant: only the crash / located-error
+	// clauses apply then)
+	dangling bool
+}
+
+// controlNames are the existing names that replace the dangling name in the control programs of
+// level 1 (the {existing, dangling} dimension): attributes a and b; view a; scheme a; error a.
+func controlNames(id string) []string {
+	switch templateDim(id, "") {
+	case "v", "":
+		return []string{"a"}
+	}
+	return []string{"a", "b"}
+}
+
+func renameInCalls(calls []Call, f func(a *Arg)) []Call {
+	out := make([]Call, len(calls))
+	for i, c := range calls {
+		out[i] = Call{Fn: c.Fn, Args: make([]Arg, len(c.Args))}
+		for j, a := range c.Args {
+			if a.Body != nil {
+				a.Body = renameInCalls(a.Body, f)
+			}
+			if a.Call != nil {
+				cc := renameInCalls([]Call{*a.Call}, f)[0]
+				a.Call = &cc
+			}
+			f(&a)
+			out[i].Args[j] = a
+		}
+	}
+	return out
+}
+
+// withName replaces the dangling name by an existing one (control programs).
+func withName(calls []Call, name string) []Call {
+	return renameInCalls(calls, func(a *Arg) {
+		if a.K == "s" {
+			a.S = strings.ReplaceAll(a.S, zz, name)
+		}
+	})
+}
+
+// danglingBlocks: level 1 = every instance alone (program 0), followed by its control programs
+// (the dangling name replaced by each existing name; general oracle only); level 2 = with one
+// companion call before or after it; level 3 = with two companion calls in every relative
+// position. Companions are the calls goa accepts in the base context (sel.D3); none of them can
+// define the name because no menu contains that name.
+func danglingBlocks(tag string, insts []danglingInstance, sel *Selection, level int) []block {
 	var out []block
-	for ti, tpl := range danglingTemplates() {
-		tpl := tpl
-		key := fmt.Sprintf("dangling%d/%03d/%s/%s/%s", level, ti, tpl.ctx, tpl.id, describe(tpl.hole()))
+	for _, in := range insts {
+		in := in
+		tpl := in.tpl
+		key := fmt.Sprintf("%s%d/%03d/%s/%s/%s", tag, level, in.idx, in.ctx, tpl.id, describe(tpl.hole()))
+		dangling := ""
+		if in.dangling {
+			dangling = tpl.id
+		}
 		if level == 1 {
-			out = append(out, block{Key: key, N: 1, at: func(int) *Program {
-				return &Program{Ctx: tpl.ctx, Hole: tpl.hole(), Dangling: tpl.id, Strict: true}
+			ctl := controlNames(tpl.id)
+			out = append(out, block{Key: key, N: 1 + len(ctl), at: func(j int) *Program {
+				if j == 0 {
+					return &Program{Ctx: in.ctx, Hole: tpl.hole(), Dangling: dangling, Strict: in.dangling}
+				}
+				return &Program{Ctx: in.ctx, Hole: withName(tpl.hole(), ctl[j-1])}
 			}})
 			continue
 		}
 		if sel == nil {
 			continue
 		}
-		cctx := tpl.ctx
+		cctx, _ := splitVariant(in.ctx)
 		if c, ok := companionCtx[cctx]; ok {
 			cctx = c
 		}
@@ -369,10 +431,70 @@ func familyDangling(sel *Selection, level int) []block {
 			calls = append(calls, comp[:pos]...)
 			calls = append(calls, tpl.hole()...)
 			calls = append(calls, comp[pos:]...)
-			return &Program{Ctx: tpl.ctx, Hole: calls, Dangling: tpl.id, Strict: tpl.strict}
+			return &Program{Ctx: in.ctx, Hole: calls, Dangling: dangling, Strict: tpl.strict && in.dangling}
 		}})
 	}
 	return out
+}
+
+// familyDangling: the templates in their base contexts.
+func familyDangling(sel *Selection, level int) []block {
+	var insts []danglingInstance
+	for ti, tpl := range danglingTemplates() {
+		insts = append(insts, danglingInstance{ti, tpl, tpl.ctx, true})
+	}
+	return danglingBlocks("dangling", insts, sel, level)
+}
+
+// toViewedType rewrites a template that selects a view of the prelude result type RT so that it
+// selects a view of VRT, the type the v dimension of a variant defines.
+func toViewedType(t danglingTemplate) danglingTemplate {
+	f := func(a *Arg) {
+		if a.K == "ut" && a.S == "RT" {
+			a.S = "VRT"
+		}
+	}
+	t.call = renameInCalls([]Call{t.call}, f)[0]
+	t.pre, t.post = renameInCalls(t.pre, f), renameInCalls(t.post, f)
+	return t
+}
+
+// kindInstances places every template in the variants of its context (see variantsOf for the
+// plans): the kind of the type the template refers into x the kinds of the other types of the
+// scaffold. objectOnly keeps the variants in which the dangling-reference clause applies.
+func kindInstances(plan string, objectOnly bool) []danglingInstance {
+	var out []danglingInstance
+	for ti, tpl := range danglingTemplates() {
+		dim := templateDim(tpl.id, tpl.ctx)
+		if dim == "v" {
+			tpl = toViewedType(tpl)
+		}
+		for _, v := range variantsOf(tpl.ctx, dim, plan) {
+			dangling := true
+			if dim != "" {
+				_, k, _ := parseVariant(v)
+				dangling = kindIsObject(dim, k[dim])
+			}
+			if objectOnly && !dangling {
+				continue
+			}
+			out = append(out, danglingInstance{ti, tpl, v, dangling})
+		}
+	}
+	return out
+}
+
+// familyKind: the dangling templates x the kind of the type referred into.
+//
+//	level 1: quick = reduced product of kinds, thorough = full product
+//	level 2: quick = one dimension at a time,  thorough = reduced product
+//	level 3: (thorough) one dimension at a time, object-like kinds
+func familyKind(sel *Selection, level int) []block {
+	plans := map[int]string{1: "full", 2: "reduced", 3: "one"}
+	if quickMenus {
+		plans = map[int]string{1: "reduced", 2: "one", 3: "one"}
+	}
+	return danglingBlocks("dkind", kindInstances(plans[level], level == 3), sel, level)
 }
 
 // ---- recursive type family ----
@@ -601,6 +723,12 @@ func familyByName(name string, sel *Selection) []block {
 		return familyDangling(sel, 2)
 	case "dangling3":
 		return familyDangling(sel, 3)
+	case "dkind1":
+		return familyKind(sel, 1)
+	case "dkind2":
+		return familyKind(sel, 2)
+	case "dkind3":
+		return familyKind(sel, 3)
 	case "rec1":
 		return familyRec(1)
 	case "rec2":
